@@ -51,8 +51,58 @@ Theorem C15_self_peer_dropped : forall id evs,
 Proof. exact self_peer_dropped. Qed.
 Print Assumptions C15_self_peer_dropped.
 
-(* Bounded instances of the statements whose general proofs are not finished (Revoke/Proofs.v keeps the full
-   statements as Definitions): the executable specification with ALL its clauses (no output toward / index entry of /
+(* The index table has no entry whose peer is not in the peer map (sessions and pending handshakes), at every state
+   reached by any event list; right after remove=true no entry belongs to the removed peer; after replace_peers the
+   table and the peer map are empty.  Together with C15_unknown_index_refused: every message under a removed peer's
+   former sessions or pending handshakes is refused. *)
+Theorem C15_removed_peer_indices_refused : forall id evs i e,
+  In (i, e) (d_itab (reached id evs)) -> has_peer (e_peer e) (d_peers (reached id evs)) = true.
+Proof. exact removed_peer_indices_refused. Qed.
+Print Assumptions C15_removed_peer_indices_refused.
+
+Theorem C15_removed_peer_sessions_gone : forall id evs pk i e,
+  In (i, e) (d_itab (reached id (evs ++ [ERemove pk]))) -> e_peer e <> pk.
+Proof. exact removed_peer_sessions_gone. Qed.
+Print Assumptions C15_removed_peer_sessions_gone.
+
+Theorem C15_replace_peers_empties_index_table : forall id evs,
+  d_itab (reached id (evs ++ [EReplacePeers])) = [] /\ d_peers (reached id (evs ++ [EReplacePeers])) = [].
+Proof. exact replace_peers_empties_index_table. Qed.
+Print Assumptions C15_replace_peers_empties_index_table.
+
+(* Whatever the device emits in a step (datagram or TUN write) belongs to a peer that is in the peer map before AND
+   after the step: nothing is ever emitted toward a removed peer, nor by the removing step itself. *)
+Theorem C15_removed_peer_no_output : forall id evs e o,
+  In o (snd (step (reached id evs) e)) ->
+  has_peer (out_peer o) (d_peers (reached id evs)) = true /\
+  has_peer (out_peer o) (d_peers (fst (step (reached id evs) e))) = true.
+Proof. exact removed_peer_no_output. Qed.
+Print Assumptions C15_removed_peer_no_output.
+
+(* Right after an identity change every current / next keypair is unusable for sending and no handshake is pending. *)
+Theorem C15_identity_change_kills_keypairs : forall id evs k p,
+  k <> d_ident (reached id evs) ->
+  In p (d_peers (reached id (evs ++ [ESetKey k]))) ->
+  usable (p_cur p) = false /\ usable (p_next p) = false /\ p_hs p = None.
+Proof. exact identity_change_kills_keypairs. Qed.
+Print Assumptions C15_identity_change_kills_keypairs.
+
+(* After a private-key change no transport is emitted under any keypair created before it: every transport message,
+   in every step from every reachable state, leaves under a keypair of the current identity epoch. *)
+Theorem C15_identity_change_stops_old_sessions : forall id evs e to ridx ep,
+  In (OTransport to ridx ep) (snd (step (reached id evs) e)) -> ep = d_epoch (reached id evs).
+Proof. exact identity_change_stops_old_sessions. Qed.
+Print Assumptions C15_identity_change_stops_old_sessions.
+
+(* A response to whatever initiation the device sent before an identity change has no effect after it. *)
+Theorem C15_identity_change_refuses_pending_responses : forall id evs k idx from d ridx,
+  k <> d_ident (reached id evs) ->
+  let s := reached id (evs ++ [ESetKey k]) in
+  step s (EResponse idx from d ridx) = (s, []).
+Proof. exact identity_change_refuses_pending_responses. Qed.
+Print Assumptions C15_identity_change_refuses_pending_responses.
+
+(* Non-vacuity and bounded instances: the executable specification with ALL its clauses (no output toward / index entry of /
    route to an unconfigured peer, no transport under a pre-change session, identity of handshakes, self-peer,
    refused indices) holds on the model's own trace of a scenario that places removals and key changes after one key,
    two keys, a pending handshake and staged packets. *)
